@@ -21,26 +21,30 @@ impl<K, V> Default for FnvHashMap<K, V> {
     fn default() -> Self { Self { items: Vec::with_capacity(INITIAL_CAPACITY) } }
 }
 
-pub enum Entry<'a, K, V> {
-    Occupied(&'a mut V),
-    Vacant(&'a mut Vec<(K, V)>, K),
+/// Entry API, represented by an index instead of an enum of borrows (friendlier to CBMC's
+/// pointer analysis than a sum type holding `&mut`).
+pub struct Entry<'a, K, V> {
+    items: &'a mut Vec<(K, V)>,
+    found: usize,          // index of the key, or usize::MAX
+    key: Option<K>,
 }
 
 impl<'a, K, V> Entry<'a, K, V> {
     pub fn and_modify<F: FnOnce(&mut V)>(self, f: F) -> Self {
-        match self {
-            Entry::Occupied(v) => { f(v); Entry::Occupied(v) }
-            e => e,
+        if self.found != usize::MAX {
+            f(&mut self.items[self.found].1);
         }
+        self
     }
     pub fn or_insert_with<F: FnOnce() -> V>(self, f: F) -> &'a mut V {
-        match self {
-            Entry::Occupied(v) => v,
-            Entry::Vacant(items, k) => {
-                items.push((k, f()));
-                let last = items.len() - 1;
-                &mut items[last].1
-            }
+        let Entry { items, found, key } = self;
+        if found != usize::MAX {
+            &mut items[found].1
+        } else {
+            let k = match key { Some(k) => k, None => unreachable!() };
+            items.push((k, f()));
+            let last = items.len() - 1;
+            &mut items[last].1
         }
     }
     pub fn or_insert(self, v: V) -> &'a mut V {
@@ -85,8 +89,8 @@ impl<K: Ord, V> FnvHashMap<K, V> {
     }
     pub fn entry(&mut self, k: K) -> Entry<'_, K, V> {
         match self.position(&k) {
-            Some(i) => Entry::Occupied(&mut self.items[i].1),
-            None => Entry::Vacant(&mut self.items, k),
+            Some(i) => Entry { items: &mut self.items, found: i, key: None },
+            None => Entry { items: &mut self.items, found: usize::MAX, key: Some(k) },
         }
     }
     pub fn iter(&self) -> impl Iterator<Item = (&K, &V)> {
